@@ -300,6 +300,18 @@ Proof.
     + destruct k; cbn; [reflexivity|]. apply IH.
 Qed.
 
+Lemma constraints_apply_encoded items ps (ts : list pbound) k p (pp l u : option Q) :
+  nth_error ps k = Some p -> nth_error ts k = Some (pp, l, u) ->
+  exists t', nth_error (constraints_apply items ps ts) k = Some t' /\
+    snd (fst t') = merge_lower (constraints_get items T_LOWER p) l /\
+    snd t' = merge_upper (constraints_get items T_UPPER p) u.
+Proof.
+  intros Hp Ht. exists (apply_one items p (pp, l, u)). split.
+  - rewrite constraints_apply_nth. rewrite Hp. cbv beta iota. destruct (nth_error ts k) as [t|]; [|discriminate].
+    injection Ht as ->. reflexivity.
+  - exact (apply_one_bounds items p pp l u).
+Qed.
+
 (* no item designates p: the default bounds are untouched *)
 Lemma apply_one_untouched items p pp l u :
   (forall it, In it items -> designates it p = false) ->
